@@ -545,4 +545,19 @@ Section Rules.
       + apply (wf_ext K t Ht). apply upd_id_gen.
       + apply (wf_indep K t x' Ht Hft).
   Qed.
+  (* ---- gauged networks: a bond gauge is a vector sitting on the bond ------------------------------ *)
+  (* (tn, gauges) denotes tn with the vector g inserted on bond k; squeezing a size-1 gauged bond
+     (tensor_fuse_squeeze with gauges) must absorb the scalar g[0] exactly once: r into each end with r*r = g[0] *)
+  Definition gauge_vec (k : ind) (g : nat -> K) : tensor := mkT [k] (fun s => g (s k)).
+
+  Lemma wf_gauge_vec k g : wf (gauge_vec k g).
+  Proof. intros s s' E. cbn. rewrite (E k) by (left; reflexivity). reflexivity. Qed.
+
+  Theorem squeeze_gauged_bond_sound a b others k g r R s : dim k = 1 -> r * r = g 0 ->
+    value (gauge_vec k g :: a :: b :: others) (R ++ [k]) s
+    = value (scale r (sel k 0 a) :: scale r (sel k 0 b) :: map (sel k 0) others) R s.
+  Proof.
+    intros Hd Hr. rewrite (squeeze_sound _ k R s Hd). apply value_pointwise. intros s'.
+    cbn [map]. rewrite !tprod_cons. cbn [gauge_vec sel scale TN.tval]. rewrite upd_same, <- Hr. ring.
+  Qed.
 End Rules.
